@@ -28,17 +28,39 @@ Theorem C14_sub_mixed_rejected : forall af bf rf a b, ~ (af = bf /\ af = rf) -> 
 Proof. exact fxsub_mixed. Qed.
 
 (* multiplier, three independent formats: floor of the exact product of the signed values rescaled to the result
-   format, modulo 2^wr.  Guards: the window [low, low+wr) with low = fa+fb-fr starts at or above bit 0 (below: the
-   real block raises, C14_mul_low_negative) and ends inside the double-width product (beyond: refuted below). *)
-Theorem C14_mul : forall af bf rf a b, wf af -> wf bf -> wf rf -> enc af a -> enc bf b ->
-  0 <= mul_low af bf rf -> mul_low af bf rf + fwidth rf <= fwidth af + fwidth bf ->
-  fxmul af bf rf a b = Some (spec_mul (fwidth af) (ffrac af) (fwidth bf) (ffrac bf) (fwidth rf) (ffrac rf) a b).
-Proof. exact fxmul_spec. Qed.
+   format, modulo 2^wr, with low = fa+fb-fr the bottom of the extraction window (below bit 0 the real block raises).
+   The product width pw is a parameter of the model (Model/Fxp.v: fxmul_w); the check reads it off the real `m` wire.
+   For ANY pw that holds each operand and the whole window [low, low+wr)  (pw >= wa+wb is NOT needed): *)
+Theorem C14_mul_any_product_width : forall pw af bf rf a b, wf af -> wf bf -> wf rf -> enc af a -> enc bf b ->
+  fwidth af <= pw -> fwidth bf <= pw ->
+  0 <= mul_low af bf rf -> mul_low af bf rf + fwidth rf <= pw ->
+  fxmul_w pw af bf rf a b = Some (spec_mul (fwidth af) (ffrac af) (fwidth bf) (ffrac bf) (fwidth rf) (ffrac rf) a b).
+Proof. exact fxmul_w_spec. Qed.
 (* the integer form of the spec is the floor of the RATIONAL product (v/2^fa)*(v'/2^fb)*2^fr *)
 Theorem C14_mul_spec_is_rational_floor : forall wa fa wb fb wr fr a b,
   0 <= fa -> 0 <= fb -> 0 <= fr -> 0 <= fa + fb - fr ->
   spec_mul_Q wa fa wb fb wr fr a b = spec_mul wa fa wb fb wr fr a b.
 Proof. exact spec_mul_rational. Qed.
+
+(* wiring with pw = max(wa+wb, low+wr)  (fixes/C14-F1.diff): every format triple, no guard on the top of the window;
+   identical to the wa+wb wiring wherever that one was right *)
+Theorem C14_mul_fixed : forall af bf rf a b, wf af -> wf bf -> wf rf -> enc af a -> enc bf b ->
+  0 <= mul_low af bf rf ->
+  fxmul_fixed af bf rf a b = Some (spec_mul (fwidth af) (ffrac af) (fwidth bf) (ffrac bf) (fwidth rf) (ffrac rf) a b).
+Proof. exact fxmul_fixed_spec. Qed.
+Theorem C14_mul_fixed_low_negative : forall af bf rf a b, mul_low af bf rf < 0 -> fxmul_fixed af bf rf a b = None.
+Proof. exact fxmul_fixed_window_below. Qed.
+Theorem C14_mul_fixed_conservative : forall af bf rf a b, mul_low af bf rf + fwidth rf <= fwidth af + fwidth bf ->
+  fxmul_fixed af bf rf a b = fxmul af bf rf a b.
+Proof. exact fxmul_fixed_same. Qed.
+
+(* <C14-F1> *)
+(* wiring with pw = wa+wb  (/repo before the repair of finding C14-F1): right when the window ends inside the double-width
+   product (low + wr <= wa + wb), refuted beyond. *)
+Theorem C14_mul : forall af bf rf a b, wf af -> wf bf -> wf rf -> enc af a -> enc bf b ->
+  0 <= mul_low af bf rf -> mul_low af bf rf + fwidth rf <= fwidth af + fwidth bf ->
+  fxmul af bf rf a b = Some (spec_mul (fwidth af) (ffrac af) (fwidth bf) (ffrac bf) (fwidth rf) (ffrac rf) a b).
+Proof. exact fxmul_spec. Qed.
 Theorem C14_mul_low_negative : forall af bf rf a b, mul_low af bf rf < 0 -> fxmul af bf rf a b = None.
 Proof. exact fxmul_window_below. Qed.
 (* FINDING C14-F1: a result format whose window reaches above bit wa+wb-1 gets zeros there instead of sign bits *)
@@ -47,7 +69,6 @@ Theorem C14_mul_wide_window_refuted : exists af bf rf a b, wf af /\ wf bf /\ wf 
   fxmul af bf rf a b = Some 3 /\
   spec_mul (fwidth af) (ffrac af) (fwidth bf) (ffrac bf) (fwidth rf) (ffrac rf) a b = 31.
 Proof. exact fxmul_wide_window_refuted. Qed.
-
 (* the exact extent of C14-F1 when the window is too wide: right for every non-negative product, wrong for EVERY negative one *)
 Theorem C14_mul_nonneg_any_window : forall af bf rf a b, wf af -> wf bf -> wf rf -> enc af a -> enc bf b ->
   0 <= mul_low af bf rf -> 0 <= fxint (fwidth af) a * fxint (fwidth bf) b ->
@@ -58,6 +79,12 @@ Theorem C14_mul_wide_window_negative_wrong : forall af bf rf a b, wf af -> wf bf
   fxint (fwidth af) a * fxint (fwidth bf) b < 0 ->
   fxmul af bf rf a b <> Some (spec_mul (fwidth af) (ffrac af) (fwidth bf) (ffrac bf) (fwidth rf) (ffrac rf) a b).
 Proof. exact fxmul_wide_window_neg. Qed.
+Print Assumptions C14_mul.
+Print Assumptions C14_mul_low_negative.
+Print Assumptions C14_mul_wide_window_refuted.
+Print Assumptions C14_mul_nonneg_any_window.
+Print Assumptions C14_mul_wide_window_negative_wrong.
+(* </C14-F1> *)
 
 (* sign block: bit i+f, which is 1 exactly for the negative values *)
 Theorem C14_sign : forall F a, wf F -> enc F a ->
@@ -82,20 +109,30 @@ Theorem C14_helper_add : forall F a b, wf F -> fxh_add F a b = fxadd F F F a b.
 Proof. exact fxh_add_agrees. Qed.
 Theorem C14_helper_sub : forall F a b, wf F -> fxh_sub F a b = fxsub F F F a b.
 Proof. exact fxh_sub_agrees. Qed.
-Theorem C14_helper_mult : forall F a b, wf F -> enc F a -> enc F b -> fxh_mult F a b = fxmul F F F a b.
+Theorem C14_helper_mult : forall F a b, wf F -> enc F a -> enc F b -> fxh_mult F a b = fxmul_fixed F F F a b.
+Proof. exact fxh_mult_agrees_fixed. Qed.
+(* <C14-F1> *)
+Theorem C14_helper_mult_prerepair : forall F a b, wf F -> enc F a -> enc F b -> fxh_mult F a b = fxmul F F F a b.
 Proof. exact fxh_mult_agrees. Qed.
+Print Assumptions C14_helper_mult_prerepair.
+(* </C14-F1> *)
 
 (* non-vacuity of the hypotheses, on non-trivial instances *)
 Example C14_mul_instance :     (* (1,2,2) x (1,1,3) -> (1,3,2):  -1.75 * 0.625 = -1.09375 -> floor to quarters = -1.25 = 0b111011 *)
   let af := (1, 2, 2) in let bf := (1, 1, 3) in let rf := (1, 3, 2) in
   wf af /\ wf bf /\ wf rf /\ enc af 25 /\ enc bf 5 /\ 0 <= mul_low af bf rf /\
-  mul_low af bf rf + fwidth rf <= fwidth af + fwidth bf /\ fxmul af bf rf 25 5 = Some 59.
+  mul_low af bf rf + fwidth rf <= fwidth af + fwidth bf /\ fxmul_fixed af bf rf 25 5 = Some 59 /\ fxmul_w 12 af bf rf 25 5 = Some 59.
 Proof. unfold wf, enc, mul_low. cbn [fsign fint ffrac fwidth]. repeat split; try lia; vm_compute; congruence. Qed.
 Example C14_mostneg_instances :
-  fxmul (1, 2, 2) (1, 2, 2) (1, 2, 2) 16 16 = Some 0 /\
-  fxmul (1, 2, 2) (1, 2, 2) (1, 5, 2) 16 16 = Some 64 /\
-  fxmul (1, 2, 2) (1, 2, 2) (1, 5, 4) 16 16 = Some 256.
-Proof. exact mostneg_examples. Qed.
+  fxmul_fixed (1, 2, 2) (1, 2, 2) (1, 2, 2) 16 16 = Some 0 /\
+  fxmul_fixed (1, 2, 2) (1, 2, 2) (1, 5, 2) 16 16 = Some 64 /\
+  fxmul_fixed (1, 2, 2) (1, 2, 2) (1, 5, 4) 16 16 = Some 256.
+Proof. vm_compute. auto. Qed.
+Example C14_mul_fixed_instances :      (* the witness of C14-F1 and a full-precision accumulator format, repaired wiring *)
+  fxmul_fixed (1, 0, 1) (1, 0, 1) (1, 4, 0) 3 1 = Some 31 /\
+  fxmul_fixed (1, 1, 2) (1, 1, 2) (1, 4, 4) 15 1 = Some 511 /\
+  fxmul_fixed (1, 2, 2) (1, 2, 2) (1, 5, 4) 16 16 = Some 256.
+Proof. exact fixed_examples. Qed.
 Example C14_cmp_instance :     (* -0.5 < 1.0 in (1,1,1): difference -1.5 representable *)
   let F := (1, 1, 1) in wf F /\ enc F 7 /\ enc F 2 /\ diff_representable (fwidth F) 7 2 /\ fxcmp F F 7 2 = Some (0, 0, 1).
 Proof. unfold wf, enc, diff_representable. cbn [fsign fint ffrac fwidth]. repeat split; try lia; vm_compute; congruence. Qed.
@@ -112,12 +149,11 @@ Print Assumptions C14_add_exact.
 Print Assumptions C14_sub_exact.
 Print Assumptions C14_add_mixed_rejected.
 Print Assumptions C14_sub_mixed_rejected.
-Print Assumptions C14_mul.
+Print Assumptions C14_mul_any_product_width.
 Print Assumptions C14_mul_spec_is_rational_floor.
-Print Assumptions C14_mul_low_negative.
-Print Assumptions C14_mul_wide_window_refuted.
-Print Assumptions C14_mul_nonneg_any_window.
-Print Assumptions C14_mul_wide_window_negative_wrong.
+Print Assumptions C14_mul_fixed.
+Print Assumptions C14_mul_fixed_low_negative.
+Print Assumptions C14_mul_fixed_conservative.
 Print Assumptions C14_sign.
 Print Assumptions C14_cmp_eq.
 Print Assumptions C14_cmp_partial.
